@@ -692,8 +692,50 @@ def filter_map_chains(src, log):
     raise ExtractError("R6 (filter_map) did not converge")
 
 
+# ---------------------------------------------------------------- R6 (string-set chains of the rename matcher)
+def string_set_chains(src, log):
+    """R6: E.split(":::").map(|x| x.to_string()).collect()  ->  verif_parts_set(&E)
+           A.intersection(&B).count()                        ->  verif_intersection_count(&A, &B)
+           for X in H.keys() {                               ->  let verif_keysN = verif_map_keys(&H); for X in verif_keysN {"""
+    # parts set
+    pat = re.compile(r'(\b[\w\.]+)\s*\.split\(\s*":::"\s*\)\s*\.map\(\s*\|(\w+)\|\s*\2\.to_string\(\)\s*\)\s*\.collect\(\)')
+    while True:
+        m = pat.search(src)
+        if not m:
+            break
+        src = src[:m.start()] + "verif_parts_set(&%s)" % m.group(1) + src[m.end():]
+        log.append({"rule": "R6", "shape": "split(:::).map(to_string).collect()", "receiver": m.group(1)})
+    pat = re.compile(r'(\b[\w\.]+)\s*\.intersection\(\s*&\s*([\w\.]+)\s*\)\s*\.count\(\)')
+    while True:
+        m = pat.search(src)
+        if not m:
+            break
+        src = src[:m.start()] + "verif_intersection_count(&%s, &%s)" % (m.group(1), m.group(2)) + src[m.end():]
+        log.append({"rule": "R6", "shape": "intersection().count()", "receiver": m.group(1)})
+    n = 0
+    for _ in range(10):
+        toks = tokenize(src)
+        hit = None
+        for (kf, kin, bo, bc) in _for_loops(toks):
+            expr = text(toks, kin + 1, bo).strip()
+            m = re.fullmatch(r'([\w\.]+)\.keys\(\)', expr)
+            if m:
+                hit = (kf, kin, bo, m.group(1))
+                break
+        if not hit:
+            return src
+        kf, kin, bo, recv = hit
+        n += 1
+        var = "verif_keys%d" % n
+        src = (text(toks, 0, kf) + "let %s = verif_map_keys(&%s); " % (var, recv) + text(toks, kf, kin + 1)
+               + " %s " % var + text(toks, bo, len(toks)))
+        log.append({"rule": "R6", "shape": "for .. in map.keys()", "receiver": recv, "var": var})
+    raise ExtractError("R6 (keys) did not converge")
+
+
 def adapter_chains(src, log):
     """X.drain().filter(C).collect()  ->  verif_drain_filter_collect(&mut X, C)"""
+    src = string_set_chains(src, log)
     src = node_adapter_chains(src, log)
     src = filter_map_chains(src, log)
     for _ in range(10):
